@@ -83,7 +83,15 @@ def sem_sig(body, s, depth=0):
                 # the index an enumerate() hands to the callback == `.next()?.0` of the loop form
                 return 'Iterator>::next().' + ''.join('.' + p.split(':')[-1] for p in pr[1:] if p.startswith('field:'))
     if s.kind == 'place':
-        txt = body.place_str({'l': s.local, 'p': [p for p in s.proj if not p.startswith('<')]})
+        pj = [p for p in s.proj if not p.startswith('<')]
+        is_param = (s.local <= body.argc and s.local != 0) or (body.kind == 'Closure' and s.local in (1, 2))
+        if not is_param and s.local in body.user_locals_named() and not any(n.split('#')[0] in body.upvars for n in [body.name_of(s.local) or '']):
+            # a local variable is described by its type, not its name (renaming it is not a change)
+            ty = body.locals[s.local] if s.local < len(body.locals) else '?'
+            txt = body.place_str({'l': s.local, 'p': pj})
+            nm = body.name_of(s.local) or ''
+            return re.sub(r'#\d+', '', txt).replace(nm.split('#')[0], 'var:' + ty.rsplit('::', 1)[-1], 1) if nm else txt
+        txt = body.place_str({'l': s.local, 'p': pj})
         return re.sub(r'#\d+', '', txt)
     if s.kind == 'const':
         return str(s.const).rsplit('::', 1)[-1]
